@@ -2,7 +2,7 @@
 
 ENTRY = {'parts': [{'scenario': 'scenarios.s_pool', 'chunk': 6, 'frac': 0.75},
                    {'scenario': 'scenarios.s_restart', 'chunk': 50, 'frac': 0.25}],
-         'quick': {'runs': 3000, 'budget': 60}, 'thorough': {'runs': 200000, 'budget': 1200}}
+         'quick': {'runs': 3000, 'budget': 45}, 'thorough': {'runs': 200000, 'budget': 1200}}
 
 TEXT = {'level': '(1) restart_state.step driven through generated histories of restart requests, gaps (simulated '
           'clock, also exactly at the window edge) and acceptance resets against a model written from the '
